@@ -71,11 +71,11 @@ func init() {
 		"Decides: id retrievability is structurally complete — every child-element field of every schema struct is reached by its FindBy (R29); writer/reader tables agree: every namespace in a struct tag is mapped, every prefix written has an xmlns declaration, the xsi:type attribute written is the one tested on parse, marshal and unmarshal expression kinds form the same closed set (R30); serialising does not write to the model (R31). Round 2: documents are decoded into fresh values, never into a value aliasing package-level defaults (R71).",
 		"equality of the re-parsed model, identical engine behaviour.")
 	prop("C16", "Values survive storage; nothing panics",
-		[]string{"R26", "R28", "R45", "R66", "R67"}, nil,
+		[]string{"R26", "R28", "R45", "R66", "R67", "R74"}, nil,
 		"Decides: reflect accessor/kind agreement and nil-type discipline in the value layer (R26b,c); ItemType switches are exhaustive (R28); no mutable package-level state in the value/data layer besides a locked registry, and NewOptions allocates a fresh locator (R45). Round 2: numbers are written into ItemValue with a lossless format (R66); a map decoded with the error ignored is never nil (R67).",
 		"round-trip equality of values (formatting, integer ranges).")
 	prop("C17", "No data race, no panic",
-		[]string{"R20", "R21", "R22", "R23", "R24", "R25", "R26", "Rerr", "R58", "R1"}, nil,
+		[]string{"R20", "R21", "R22", "R23", "R24", "R25", "R26", "Rerr", "R58", "R1", "R74"}, nil,
 		"Decides: lockset discipline over all mutex-bearing structs (R22), atomic-only consistency (R23), owner-goroutine confinement of node state (R24), closure-shared locals (R25), nil-map / reflect discipline (R26), dropped constructor errors (Rerr, thorough). Round 2: lock pairing on every path (R58); wait-group Add precedes the go statement (R1).",
 		"races on memory that has no discipline to infer; 'the outcome is one the sequential semantics allows'.")
 	prop("C18", "Process set",
